@@ -42,6 +42,9 @@ struct Outcome {
   void fail(const std::string &c, const std::string &s, const std::string &d) {
     if (violation) return;  // first violation wins (stable class for shrinking)
     violation = true; cls = c; sig = s; detail = d;
+    for (auto &ch : cls) if (ch == ' ' || ch == '\t' || ch == '\n') ch = '_';   // class and signature are single tokens of the RESULT line
+    for (auto &ch : sig) if (ch == ' ' || ch == '\t' || ch == '\n') ch = '_';
+    if (sig.empty()) sig = "-";
   }
 };
 
@@ -157,6 +160,7 @@ static inline ChildEnd classify_death(int st, const char *note, bool hang) {
   else e.sig = fmt("exit%d", WEXITSTATUS(st));
   e.detail = note;
   // a harness signal handler may refine class/sig by writing "CLASS=<cls> SIG=<sig> rest" into the note
+  for (auto &ch : e.sig) if (ch == ' ') ch = '_';
   if (!strncmp(note, "CLASS=", 6)) {
     const char *sp = strchr(note, ' ');
     if (sp && !strncmp(sp + 1, "SIG=", 4)) {
